@@ -105,6 +105,7 @@ def run(ctx):
             obs.sample({'recipe': doc})
     for k in range(ctx.share(ctx.pick(4000, 100000))):
         check_case(stress_doc(rng), obs, 'json_stress')
+    concurrent_pass(ctx, ctx.share(ctx.pick(160, 4000)))
     # codec-name spellings: every spelling of the BOM-emitting codecs and a
     # sample of the others (the spelling question itself is C15's)
     from mon.gen import codecs_cat
@@ -126,5 +127,24 @@ def run(ctx):
                    obs, 'spelling')
 
 
+def writer_thunk(doc):
+    def thunk():
+        stream = MonitoredStream()
+        recipe.run_writer(recipe.writer_calls(doc), stream)
+        return stream.getvalue()
+    return thunk
+
+
+def concurrent_pass(ctx, n_groups):
+    """Independent writers at work in several threads (seeded schedule)."""
+    rng = ctx.rng
+    for _ in range(n_groups):
+        docs = [recipe.gen_doc(rng) for _ in range(rng.randint(2, 4))]
+        ctx.obs.case(('concurrent', docs))
+        common.check_concurrent(ctx.obs, rng, docs, writer_thunk, 'writers')
+
+
 def replay(case, obs):
+    if 'concurrent' in case:
+        return common.replay_concurrent(case, obs, writer_thunk)
     check_case(case, obs, 'replay')
